@@ -17,124 +17,108 @@ pub struct DurationLiteral {
 }
 
 impl DurationLiteral {
+    /// Creates a duration from a fixed point count of a unit that lasts
+    /// `nanos_per_unit` nanoseconds. Fails if the duration cannot be
+    /// represented (rather than wrapping or panicking).
+    fn from_unit(value: FixedPoint, nanos_per_unit: u128) -> Result<Self, &'static str> {
+        let whole = value.whole as u128 * nanos_per_unit;
+        let fraction =
+            value.femptos as u128 * nanos_per_unit / FixedPoint::FRACTIONAL_UNITS as u128;
+        let total = whole + fraction;
+        let seconds =
+            i64::try_from(total / 1_000_000_000).map_err(|e| "duration out of range")?;
+        let nanoseconds = (total % 1_000_000_000) as i32;
+        Ok(Self {
+            span: value.span,
+            interval: Duration::new(seconds, nanoseconds),
+        })
+    }
+
     /// Create a new `DurationLiteral` with the given number of days.
+    ///
+    /// Returns an error if the duration cannot be represented.
     ///
     /// ```rust
     /// use ironplc_dsl::common::FixedPoint;
     /// use ironplc_dsl::time::DurationLiteral;
     /// use time::Duration;
-    /// assert_eq!(DurationLiteral::days(FixedPoint::parse("1").unwrap()).interval, Duration::days(1));
+    /// assert_eq!(DurationLiteral::days(FixedPoint::parse("1").unwrap()).unwrap().interval, Duration::days(1));
+    /// assert_eq!(DurationLiteral::days(FixedPoint::parse("0.5").unwrap()).unwrap().interval, Duration::hours(12));
     /// ```
-    pub fn days(days: FixedPoint) -> Self {
-        // The whole part is entirely seconds
-        let whole_seconds = Duration::days(days.whole as i64);
-
-        // The fraction has both seconds and one part femptoseconds
-        let fraction_seconds = Duration::nanoseconds(
-            (days.femptos as u128 * SECOND_PER_DAY as u128 * 1_000_000_000
-                / FixedPoint::FRACTIONAL_UNITS as u128) as i64,
-        );
-
-        Self {
-            span: days.span,
-            interval: whole_seconds + fraction_seconds,
-        }
+    pub fn days(days: FixedPoint) -> Result<Self, &'static str> {
+        Self::from_unit(days, SECOND_PER_DAY as u128 * 1_000_000_000)
     }
 
     /// Create a new `DurationLiteral` with the given number of hours.
     ///
+    /// Returns an error if the duration cannot be represented.
+    ///
     /// ```rust
     /// use ironplc_dsl::common::FixedPoint;
     /// use ironplc_dsl::time::DurationLiteral;
     /// use time::Duration;
-    /// assert_eq!(DurationLiteral::seconds(FixedPoint::parse("1").unwrap()).interval, Duration::seconds(1));
-    /// assert_eq!(DurationLiteral::seconds(FixedPoint::parse("1.001").unwrap()).interval, Duration::seconds(1) + Duration::milliseconds(1));
+    /// assert_eq!(DurationLiteral::hours(FixedPoint::parse("1").unwrap()).unwrap().interval, Duration::hours(1));
+    /// assert_eq!(DurationLiteral::hours(FixedPoint::parse("1.5").unwrap()).unwrap().interval, Duration::minutes(90));
     /// ```
-    pub fn hours(hours: FixedPoint) -> Self {
-        // The whole part is entirely seconds
-        let whole_seconds = Duration::hours(hours.whole as i64);
-
-        // The fraction has both seconds and one part femptoseconds
-        let fraction_seconds = Duration::nanoseconds(
-            (hours.femptos as u128 * SECOND_PER_HOUR as u128 * 1_000_000_000
-                / FixedPoint::FRACTIONAL_UNITS as u128) as i64,
-        );
-
-        Self {
-            span: hours.span,
-            interval: whole_seconds + fraction_seconds,
-        }
+    pub fn hours(hours: FixedPoint) -> Result<Self, &'static str> {
+        Self::from_unit(hours, SECOND_PER_HOUR as u128 * 1_000_000_000)
     }
 
     /// Create a new `DurationLiteral` with the given number of minutes.
     ///
+    /// Returns an error if the duration cannot be represented.
+    ///
     /// ```rust
     /// use ironplc_dsl::common::FixedPoint;
     /// use ironplc_dsl::time::DurationLiteral;
     /// use time::Duration;
-    /// assert_eq!(DurationLiteral::seconds(FixedPoint::parse("1").unwrap()).interval, Duration::seconds(1));
-    /// assert_eq!(DurationLiteral::seconds(FixedPoint::parse("1.001").unwrap()).interval, Duration::seconds(1) + Duration::milliseconds(1));
+    /// assert_eq!(DurationLiteral::minutes(FixedPoint::parse("1").unwrap()).unwrap().interval, Duration::minutes(1));
+    /// assert_eq!(DurationLiteral::minutes(FixedPoint::parse("0.1").unwrap()).unwrap().interval, Duration::seconds(6));
     /// ```
-    pub fn minutes(minutes: FixedPoint) -> Self {
-        // The whole part is entirely seconds
-        let whole_seconds = Duration::minutes(minutes.whole as i64);
-
-        // The fraction has both seconds and one part femptoseconds
-        let fraction_seconds = Duration::nanoseconds(
-            (minutes.femptos as u128 * SECOND_PER_MINUTE as u128 * 1_000_000_000
-                / FixedPoint::FRACTIONAL_UNITS as u128) as i64,
-        );
-        Self {
-            span: minutes.span,
-            interval: whole_seconds + fraction_seconds,
-        }
+    pub fn minutes(minutes: FixedPoint) -> Result<Self, &'static str> {
+        Self::from_unit(minutes, SECOND_PER_MINUTE as u128 * 1_000_000_000)
     }
 
     /// Create a new `DurationLiteral` with the given number of seconds.
     ///
-    /// ```rust
-    /// use ironplc_dsl::common::FixedPoint;
-    /// use ironplc_dsl::time::DurationLiteral;
-    /// use time::Duration;
-    /// assert_eq!(DurationLiteral::seconds(FixedPoint::parse("1").unwrap()).interval, Duration::seconds(1));
-    /// assert_eq!(DurationLiteral::seconds(FixedPoint::parse("1.001").unwrap()).interval, Duration::seconds(1) + Duration::milliseconds(1));
-    /// ```
-    pub fn seconds(seconds: FixedPoint) -> Self {
-        let whole_seconds = Duration::seconds(seconds.whole as i64);
-        let fraction_seconds = Duration::nanoseconds((seconds.femptos / 1_000_000) as i64);
-        Self {
-            span: seconds.span,
-            interval: whole_seconds + fraction_seconds,
-        }
-    }
-
-    /// Create a new `DurationLiteral` with the given number of milliseconds.
+    /// Returns an error if the duration cannot be represented.
     ///
     /// ```rust
     /// use ironplc_dsl::common::FixedPoint;
     /// use ironplc_dsl::time::DurationLiteral;
     /// use time::Duration;
-    /// assert_eq!(DurationLiteral::milliseconds(FixedPoint::parse("1").unwrap()).interval, Duration::milliseconds(1));
-    /// assert_eq!(DurationLiteral::milliseconds(FixedPoint::parse("1000").unwrap()).interval, Duration::seconds(1));
-    /// assert_eq!(DurationLiteral::milliseconds(FixedPoint::parse("1001").unwrap()).interval, Duration::seconds(1) + Duration::milliseconds(1));
-    /// assert_eq!(DurationLiteral::milliseconds(FixedPoint::parse("0.001").unwrap()).interval, Duration::microseconds(1));
+    /// assert_eq!(DurationLiteral::seconds(FixedPoint::parse("1").unwrap()).unwrap().interval, Duration::seconds(1));
+    /// assert_eq!(DurationLiteral::seconds(FixedPoint::parse("1.001").unwrap()).unwrap().interval, Duration::seconds(1) + Duration::milliseconds(1));
     /// ```
-    pub fn milliseconds(millis: FixedPoint) -> Self {
-        let whole_seconds = Duration::seconds((millis.whole / 1_000) as i64);
-        let whole_milliseconds = Duration::milliseconds((millis.whole % 1_000) as i64);
-
-        let fraction_nanoseconds = Duration::nanoseconds((millis.femptos / 1_000_000_000) as i64);
-        Self {
-            span: millis.span,
-            interval: whole_seconds + whole_milliseconds + fraction_nanoseconds,
-        }
+    pub fn seconds(seconds: FixedPoint) -> Result<Self, &'static str> {
+        Self::from_unit(seconds, 1_000_000_000)
     }
 
-    pub fn plus(&self, other: DurationLiteral) -> Self {
-        DurationLiteral {
+    /// Create a new `DurationLiteral` with the given number of milliseconds.
+    ///
+    /// Returns an error if the duration cannot be represented.
+    ///
+    /// ```rust
+    /// use ironplc_dsl::common::FixedPoint;
+    /// use ironplc_dsl::time::DurationLiteral;
+    /// use time::Duration;
+    /// assert_eq!(DurationLiteral::milliseconds(FixedPoint::parse("1").unwrap()).unwrap().interval, Duration::milliseconds(1));
+    /// assert_eq!(DurationLiteral::milliseconds(FixedPoint::parse("1000").unwrap()).unwrap().interval, Duration::seconds(1));
+    /// assert_eq!(DurationLiteral::milliseconds(FixedPoint::parse("1001").unwrap()).unwrap().interval, Duration::seconds(1) + Duration::milliseconds(1));
+    /// assert_eq!(DurationLiteral::milliseconds(FixedPoint::parse("0.001").unwrap()).unwrap().interval, Duration::microseconds(1));
+    /// ```
+    pub fn milliseconds(millis: FixedPoint) -> Result<Self, &'static str> {
+        Self::from_unit(millis, 1_000_000)
+    }
+
+    pub fn plus(&self, other: DurationLiteral) -> Result<Self, &'static str> {
+        Ok(DurationLiteral {
             span: SourceSpan::join(&self.span, &other.span),
-            interval: self.interval + other.interval,
-        }
+            interval: self
+                .interval
+                .checked_add(other.interval)
+                .ok_or("duration out of range")?,
+        })
     }
 }
 
